@@ -36,6 +36,14 @@ def plan(tier: str, seed: int) -> Plan:
                                     "leaf": "nbi"}, T, required=False,
                                    bounds=f"spine {spine}: two leaves of kind null|bool|int (so 0, false, null occur as selected values), two int, "
                                           "symbolic array length, member order bit"))
+    overlaps = [("$", ["$.a", "$.a[1]"], "nest1"), ("$", ["$.b", "$.b.a"], "nest1"), ("$", ["$[1]", "$[1].a"], "nest2"),
+                ("$", ["$.a", "$.a.a.b"], "deep"), ("$", ["$.b", "$.b[1].a"], "deep"), ("$", ["$[1]", "$[1][1][0]"], "nest3"),
+                ("$.b", ["$[1]", "$[1].a"], "deep"), ("$", ["$.a[1]", "$.a"], "nest1")]
+    for k, (mq, exprs, spine) in enumerate(overlaps):
+        for style in (styles if thorough else [styles[k % 2]]):
+            conds.append(Condition(f"unchanged:{style}:{spine}:{'+'.join(exprs)}", "unchanged", H, "unchanged",
+                                   {"match": mq, "exprs": exprs, "style": style, "spine": spine, "maxn": 2, "leaf": "nbi"}, T, required=False,
+                                   bounds="overlapping selections (a container and a node inside it); only 'document unchanged' is asserted"))
     return Plan(
         conditions=conds,
         explanation=(
